@@ -123,12 +123,10 @@ class Model(HoloPyObject):
         for key in ['optics', 'model']:
             kwargs.update(read_map(maps[key], parameters))
         model = cls(**kwargs)
-        if model._parameters == parameters:
-            model._parameter_names = fields['_parameter_names']
-        else:
-            msg = ("Detected inconsistencies when reloading Model. "
-                   "It may differ from previously saved object")
-            warnings.warn(msg, UserWarning)
+        # ties made across sections are not rediscovered by the constructor
+        model._parameters = parameters
+        model._parameter_names = fields['_parameter_names']
+        model._maps = maps
         return model
 
     @property
